@@ -124,13 +124,7 @@ def handleFileCfg (f : Fmt) (cfg : Hdrs) (kv : List (String × String)) (impl : 
     let known (pass : List Ammo × Stop) : Bool := !pre || pass.1.all fun a => (parseURL a.url).isSome
     let mobs : Option String :=
       match f with
-      | .uri =>
-        -- library nuance (bufio.Scanner): a LAST line without newline of exactly `maxTok` bytes fills the Scanner's buffer
-        -- completely; it is `token too long` when the end of the file shows only at the next Read (what `uriPass` models),
-        -- but a token when the Read that completed it returned io.EOF together with the data (`eofd=1`): not predicted
-        let lastLen := ((splitOn LF file).getLast?.getD []).length
-        if getS kv "eofd" == "1" && lastLen == maxTok then none
-        else if known (uriPass file []) then ammoObs conc (withCfgRes cfg (uriDeliver file k pre)) else none
+      | .uri => if known (uriPass file []) then ammoObs conc (withCfgRes cfg (uriDeliver file k pre)) else none
       | .uripost => if known (uripostPass true file []) then ammoObs conc (withCfgRes cfg (uripostDeliver true file k pre)) else none
       | .raw => rawObs conc cfg tbl (rawDeliver file k pre)  -- the table is the library's part (http.ReadRequest); the `headers` option is applied here
     let m := mobs.getD "*"
@@ -140,7 +134,7 @@ def handleFileCfg (f : Fmt) (cfg : Hdrs) (kv : List (String × String)) (impl : 
       match (splitList its ";").mapM parseItem, parseLayout kv, parseObs impl with
       | some items, some lay, some (ierr, ireqs) =>
         if render f items lay != file then (m, "fail:driver:the Lean renderer disagrees with the harness renderer")
-        else if !(itemsOK f items && layoutOK lay && (f != .uri || linesFit file)) then (m, "skip:not-wellformed")
+        else if !(itemsOK f items && layoutOK lay) then (m, "skip:not-wellformed")
         else if !targetsKnown items then (m, "skip:url-class")
         else
           match f with
